@@ -12,6 +12,7 @@ case kinds (all but codechar_range are also compared with the Lean model; `fn` a
   subst           SUBSTITUTE with and without an instance number
   fn              direct calls of the registered functions with arguments of every kind (model comparison only)
 """
+import re
 import string
 
 from .. import common, fx
@@ -140,7 +141,15 @@ def gen_len(rng, maxlen=60):
     return rng.randrange(0, maxlen + 1)
 
 
+# texts that look like something else: the spellings of the error codes (a text is a text, whatever it spells), doubled and lone
+# quote characters (two adjacent quotes inside a literal delimited by the OTHER quote are two ordinary characters)
+LOOKALIKES = ['#N/A', '#n/a', '#REF!', '#VALUE!', '#DIV/0!', '#NAME?', '#NULL!', '#NUM!', '#ERROR!', '#GETTING_DATA', '#ref!', '#N/A here',
+              '#', '#VALUE! here', 'a""b', '""', 'say ""hi""', 'x""', "it''s", "''", '"', "'", 'a"b', "a'b", 'TRUE', 'FALSE', '1e3', '007', '=1+1']
+
+
 def gen_str(rng, maxlen=60, profile=None):
+    if profile is None and maxlen >= 14 and rng.random() < 0.04:
+        return rng.choice(LOOKALIKES)
     n = gen_len(rng, maxlen)
     if profile is None:
         profile = rng.choice(['ascii', 'ascii', 'words', 'mixed', 'mixed', 'spaces', 'controls', 'accent', 'cjk'])
@@ -345,6 +354,14 @@ def cases(rng, ctx):
              ('SUBSTITUTE', ['abc', E, 'X']), ('SUBSTITUTE', ['abc', 'b', E]), ('SUBSTITUTE', ['abc', 'b']), ('SUBSTITUTE', [True, 'b', 'X', 1]),
              ('SUBSTITUTE', ['a5b', 'b', '', 1]), ('SUBSTITUTE', ['abc', 'b', 'X', 10 ** 30]), ('SUBSTITUTE', ['abc', 'b', None, 0]),
              ('SUBSTITUTE', [None, None, None, E])]
+    # the literal route: every seventh formula-level case once more with its texts written into the formula as literals
+    lits = [dict(c, lit=True) for i, c in enumerate(out) if c['kind'] in ('slice', 'lenconcat', 'case', 'join', 'subst') and i % 7 == 0]
+    for s_ in LOOKALIKES:
+        lits.append({'kind': 'case', 's': s_, 'lit': True})
+        lits.append({'kind': 'case', 's': s_})
+        lits.append({'kind': 'lenconcat', 'a': s_, 'b': 'y', 'lit': True})
+        lits.append({'kind': 'slice', 's': s_, 'n': len(s_), 'st': 1})
+    out += lits
     for name, args in fixed:
         out.append({'kind': 'fn', 'name': name, 'args': args})
     # seeded direct calls with mixed argument kinds
@@ -377,8 +394,31 @@ ITEM_NAMES = ['xa', 'xb', 'xc', 'xd', 'xe', 'xf', 'xg', 'xh']
 CASEFNS = ['UPPER', 'LOWER', 'PROPER', 'TRIM', 'CLEAN']
 
 
+def quoted(v):
+    """the text as a literal of the formula language (delimited by a quote character it does not contain), or None"""
+    if not isinstance(v, str) or '\\' in v:
+        return None          # (a backslash before the delimiter is the lexer's escape: C05's matter)
+    if '"' not in v:
+        return '"' + v + '"'
+    if "'" not in v:
+        return "'" + v + "'"
+    return None
+
+
 def setup(c):
-    """-> (variables, formulas) of a formula-level case"""
+    """-> (variables, formulas) of a formula-level case.  Route lit: every text that can be written as a literal is written
+    into the formulas instead of being handed over in a variable"""
+    vs, fs = setup_vars(c)
+    if c.get('lit'):
+        lit = dict((name, quoted(v)) for name, v in vs.items() if quoted(v) is not None)
+        if lit:
+            # one pass over the formula as written with variables (the names are whole words there; no literal is rescanned)
+            pat = re.compile(r'(?<![A-Za-z0-9_.])(%s)(?![A-Za-z0-9_.(])' % '|'.join(re.escape(n) for n in sorted(lit, key=len, reverse=True)))
+            fs = [pat.sub(lambda m: lit[m.group(1)], f) for f in fs]
+    return vs, fs
+
+
+def setup_vars(c):
     k = c['kind']
     if k == 'slice':
         return ({'s': c['s'], 'n': c['n'], 'st': c['st']},
@@ -460,10 +500,11 @@ def impl(c):
         except Exception as e:
             return ['raise', str(error.from_message(e))]
     vs, fs = setup(c)
+    names = setup_vars(c)[1]          # the records are filed under the formula as written with variables (route lit too)
     p = parser()
     for n, v in vs.items():
         p.set_variable(n, pyval(v))
-    return [(f, p.parse(f)) for f in fs]
+    return [(nm, p.parse(f)) for nm, f in zip(names, fs)]
 
 
 def agree(c, impl_ans, model_ans):
@@ -542,6 +583,13 @@ def only_case(fn, s, r):
 
 
 def oracle(c, impl_ans):
+    msg = oracle0(c, impl_ans)
+    if msg and c.get('lit'):
+        msg += ' [the texts written into the formulas as literals: %s]' % ' | '.join(setup(c)[1])[:600]
+    return msg
+
+
+def oracle0(c, impl_ans):
     k = c['kind']
     if k == 'fn':
         return None
